@@ -27,6 +27,30 @@ CLAIMED = {
         note="Assumed (hypotheses of the statement): characteristic callable non-increasing and non-negative on [i_start, i_stop]; consistently "
              "graded relay settings; x**alpha monotone for alpha > 0. Not decided: scipy interpolation itself, time_grading/"
              "create_protection_function."),
+    "C33": dict(
+        text="Proof for a generic controlled element (any number of elements, any p, q, vm, ratings; both priority modes; with and without "
+             "a PQV area): after the real DERController._saturate the apparent power is within saturate_sn_mva (when active) and p >= 0; "
+             "with only a PQV area q lies in the area's flexibility at the element's own p and vm and p is unchanged; the radicands of "
+             "the saturation step are non-negative; BaseArea.in_area is 'q within q_flexibility'; _determine_target_powers (damping 1) "
+             "carries the bound to the written setpoints.",
+        note="Assumed: PQV area objects obey the BaseArea protocol (interval q_min <= q_max depending on the element's p, vm); numpy "
+             "element-wise semantics. Not decided: shapely polygon areas and the VDE tables themselves, damping_coef > 1, Q models."),
+    "C14": dict(
+        text="Proof of the fold step: for every result variable and a generic row, the real _update_contingency_results updates max/min "
+             "exactly over the valid cases (in service, not NaN: own outage excluded), preserves 'cause names a case that produces the "
+             "reported maximum', flags causes_overloading of the outaged element iff some branch is overloaded in that case, copies the "
+             "N-0 values; run_contingency (loop + try/except/finally, real text) restores every in_service flag on normal exit, on "
+             "swallowed failures and when re-raising. Extended reals with NaN.",
+        note="Assumed: numpy fmax/fmin/where=/out= and comparison-with-NaN semantics; np.any as existence over rows (generic-row "
+             "abstraction); the evaluation function is arbitrary but does not touch in_service. Not decided: the N-1 power flows, "
+             "run_contingency_ls2g, write_to_net transfer."),
+    "C15": dict(
+        text="Proof: _update_contingency_results_parallel in both call modes satisfies, for a generic row, the same step specification "
+             "that the sequential _update_contingency_results is proved against (C14) with the tripped element's own row and "
+             "out-of-service rows excluded, hence equal folds for equal task order; the worker _run_single_contingency evaluates a copy "
+             "(caller's table object and cells untouched on normal and exceptional exit) and returns the result columns of that copy.",
+        note="Assumed: multiprocessing.Pool.map preserves task order (completion order is irrelevant to it); copy/deepcopy semantics; "
+             "evaluation function pure. Not decided: the power flows."),
 }
 
 NOT_APPLICABLE = {
